@@ -264,6 +264,10 @@ class ExecBase:
         elif ty == EXC:
             self.exc_id("Exception")
             st.assume(z3.And(v.t > 0, v.t <= max(self.exc["ids"].values())))
+        elif isinstance(ty, Opt) and ty.inner == EXC:
+            # an optional exception (encoded 0 = None) read from the heap is None or some exception class of the table
+            self.exc_id("Exception")
+            st.assume(z3.And(v.t >= 0, v.t <= max(self.exc["ids"].values())))
         elif isinstance(ty, List) or ty == BYTES:
             st.assume(self.len_wf(T.list_len(v)))
         elif isinstance(ty, Opt) and (isinstance(ty.inner, List) or ty.inner == BYTES):
